@@ -5380,6 +5380,12 @@ impl<Front: SocketHandler> ConnectionH2<Front> {
             self.flood_detector.config.max_header_fields,
             elide_x_real_ip,
         );
+        if status.is_ok() && !was_initial && self.position.is_server() {
+            // request trailers: the correlation header is proxy-owned too, but
+            // `handle_trailer` does not know the listener's name for it.
+            let sozu_id_header = parts.context.sozu_id_header.clone();
+            pkawa::elide_proxy_owned_trailers(parts.rbuffer, sozu_id_header.as_bytes());
+        }
         kawa.storage.clear();
         if let Err((error, global)) = status {
             match self.position {
